@@ -193,18 +193,22 @@ def unmarshal (recv : V) (data : Slice) : R V :=
 end SwitchConfig
 
 namespace ErrorMsg
-/-- new(ErrorMsg); NewErrorMsg() is the same value (an empty buffer) -/
+/-- new(ErrorMsg) -/
 def zero : V := .obj "ErrorMsg" [Header.zero, .num 0, .num 0, UBuffer.zero]
+/-- NewErrorMsg(): header from the 1.3 generator with type OFPT_ERROR, an empty buffer -/
+def new : V := .obj "ErrorMsg" [msgOfpHeader Gen.openflow13.Type_Error, .num 0, .num 0, UBuffer.zero]
 def lenM : V → R (UInt16 × V)
   | .obj "ErrorMsg" [h, t, c, d] => do
     let (l, d) ← UBuffer.lenM d
     pure (8 + 2 + 2 + l, .obj "ErrorMsg" [h, t, c, d])
   | _ => .panic
-/-- Header.Length is NOT updated by this encoder -/
+/-- `e.Header.Length = e.Len()` first -/
 def marshalM (v : V) : R (Bytes × V) := do
+  let (l0, v) ← lenM v
   let (l, v) ← lenM v
   match v with
   | .obj "ErrorMsg" [h, .num t, .num c, d] =>
+    let h := Header.setLength l0 h
     let hb ← Header.bytes h
     let (db, d) ← UBuffer.marshalM d
     let bs ← fill l.toNat [pCopy hb, pU16 t, pU16 c, pCopy db]
@@ -230,7 +234,7 @@ namespace VendorError
 /-- new(VendorError): the embedded *ErrorMsg is nil -/
 def zero : V := .obj "VendorError" [.nil, .num 0]
 /-- NewBundleError() -/
-def new : V := .obj "VendorError" [.obj "ErrorMsg" [msgOfpHeader 0, .num Gen.openflow13.ET_EXPERIMENTER, .num 0, UBuffer.zero],
+def new : V := .obj "VendorError" [.obj "ErrorMsg" [msgOfpHeader Gen.openflow13.Type_Error, .num Gen.openflow13.ET_EXPERIMENTER, .num 0, UBuffer.zero],
   .num Gen.openflow13.ONF_EXPERIMENTER_ID]
 def lenM : V → R (UInt16 × V)
   | .obj "VendorError" [.nil, _] => .panic
@@ -239,9 +243,11 @@ def lenM : V → R (UInt16 × V)
     pure (l + 4, .obj "VendorError" [e, x])
   | _ => .panic
 def marshalM (v : V) : R (Bytes × V) := do
+  let (l0, v) ← lenM v            -- e.Header.Length = e.Len()
   let (l, v) ← lenM v
   match v with
   | .obj "VendorError" [.obj "ErrorMsg" [h, .num t, .num c, d], .num x] =>
+    let h := Header.setLength l0 h
     let hb ← Header.bytes h
     let (db, d) ← UBuffer.marshalM d
     let bs ← fill l.toNat [pCopy hb, pU16 t, pU16 c, pU32 x, pCopy db]
@@ -674,8 +680,8 @@ end QueueStats
 namespace PortStatus
 /-- new(PortStatus): pad, HWAddr, Name are nil -/
 def zero : V := .obj "PortStatus" [Header.zero, .num 0, .bytes [], PhyPort.zero]
-/-- NewPortStatus(): header type stays 0, Desc is NewPhyPort() -/
-def new : V := .obj "PortStatus" [msgOfpHeader 0, .num 0, .bytes (zeros 7), PhyPort.new]
+/-- NewPortStatus(): Desc is NewPhyPort() -/
+def new : V := .obj "PortStatus" [msgOfpHeader Gen.openflow13.Type_PortStatus, .num 0, .bytes (zeros 7), PhyPort.new]
 def lenM : V → R (UInt16 × V)
   | .obj "PortStatus" [h, r, pad, d] => do
     let (l, d) ← PhyPort.lenM d
@@ -920,9 +926,12 @@ def marshalWith (childLen : MsgLenF) (childMar : MsgMarF) (v : V) : R (Bytes × 
   let (l0, v) ← lenWith childLen v
   let (l1, v) ← lenWith childLen v
   match v with
-  | .obj "PacketOut" [h, .num b, .num ip, .num al, pad, .list as, d] =>
+  | .obj "PacketOut" [h, .num b, .num ip, .num _, pad, .list as, d] =>
     let h := Header.setLength l1 h
     let hb ← Header.bytes h
+    -- p.ActionsLen = 0; for _, a := range p.Actions { p.ActionsLen += a.Len() }
+    let (als, as) ← mapM2 Action.lenM as
+    let al := (sum16 als).toNat
     let (abs, as) ← mapM2 (msgTryM Action.marshalM) as
     let pre := [pCopy hb, pU32 b, pU32 ip, pU16 al, pSkip 6] ++ abs.map pCopy
     let _ ← fill l0.toNat pre                  -- these writes happen (and may panic) before Data is encoded
@@ -1237,7 +1246,7 @@ def anyMarshalM : V → R (Bytes × V) := msgAnyMarshalD 8
 /-- NewFlowMod() / NewFlowRemoved(): the receivers Parse decodes into -/
 def flowModRecv : V := .obj "FlowMod" [msgOfpHeader Gen.openflow13.Type_FlowMod, .num 0, .num 0, .num 0, .num 0, .num 0, .num 0,
   .num 1000, .num 4294967295, .num Gen.openflow13.P_ANY, .num Gen.openflow13.OFPG_ANY, .num 0, .bytes [], Match.new, .list []]
-def flowRemovedRecv : V := .obj "FlowRemoved" [msgOfpHeader 0, .num 0, .num 0, .num 0, .num 0, .num 0, .num 0,
+def flowRemovedRecv : V := .obj "FlowRemoved" [msgOfpHeader Gen.openflow13.Type_FlowRemoved, .num 0, .num 0, .num 0, .num 0, .num 0, .num 0,
   .num 0, .num 0, .num 0, .num 0, Match.new]
 
 /-- one level of Parse; `self` is Parse for the message embedded in a BundleAdd -/
@@ -1331,7 +1340,7 @@ def funcsMsg : FuncTab := [
   ("NewPacketOut", msgCtor0 PacketOut.new),
   ("NewPacketIn", msgCtor0 PacketIn.new),
   ("NewSetConfig", msgCtor0 SwitchConfig.new),
-  ("NewErrorMsg", msgCtor0 ErrorMsg.zero),
+  ("NewErrorMsg", msgCtor0 ErrorMsg.new),
   ("NewFeaturesReply", msgCtor0 SwitchFeatures.new),
   ("NewPhyPort", msgCtor0 PhyPort.new),
   ("NewPortMod", fun args => match args with
